@@ -6,7 +6,7 @@ import tempfile
 import numpy
 
 from .. import fixtures, monitor, simlog
-from ..core import digest, close
+from ..core import digest, close, scratch_dir
 from . import c12
 
 META = {
@@ -216,7 +216,7 @@ def check_twins(ctx, rc, tags, nm, res, twins):
 
 def ex_case(ctx, fc, source="memory", seed=0):
     import csep.core.catalog_evaluations as ce
-    tmp = tempfile.mkdtemp(prefix="c10-", dir=os.environ.get("VERIF_TMP", "/var/tmp"))
+    tmp = scratch_dir("c10-")
     rc = {"exec": "case", "args": {"fc": fc, "source": source, "seed": seed}}
     ctx.current_case = rc
     try:
